@@ -74,6 +74,14 @@ type c19Case struct {
 	Initial []string  `json:"initial"`
 	Steps   []c19Step `json:"steps"`
 	Sampler []string  `json:"samplers"`
+	// ConfigReloadAfter: step indices after which the server's main configuration
+	// file is hot-reloaded with a change of an UNRELATED key (limit.max_read_depth).
+	// The namespace location is the same before and after, so no version of any
+	// watched file may be forgotten.
+	ConfigReloadAfter []int `json:"config_reload_after_steps,omitempty"`
+	// Relative: the target is spelled file://./watched (keto's default spelling),
+	// relative to the working directory
+	Relative bool `json:"relative_target,omitempty"`
 }
 
 func c19OPL(names []string, rel string) string {
@@ -240,6 +248,17 @@ func genC19Case(r *rand.Rand, idx int64) *c19Case {
 	for len(c.Sampler) < nS {
 		c.Sampler = append(c.Sampler, pool[r.IntN(len(pool))])
 	}
+	// config hot reloads: mostly while an invalid version is the current content of
+	// a file (the last valid one is being served from memory only)
+	if (idx/4)%2 == 1 {
+		for i, st := range c.Steps {
+			invalid := !isValid(st.Kind) && st.Kind != "remove"
+			if invalid && r.IntN(2) == 0 || r.IntN(8) == 0 {
+				c.ConfigReloadAfter = append(c.ConfigReloadAfter, i)
+			}
+		}
+		c.Relative = (idx/8)%2 == 1
+	}
 	return c
 }
 
@@ -341,6 +360,34 @@ type c19Run struct {
 	env        *Env
 	router     http.Handler // built once, before the samplers start (as the daemon does)
 	emptyOwner int          // file that owns the namespace named "" (legacy YAML/TOML), -1 if none
+	cfgFile    string       // the server's main configuration file (hot-reloaded by some steps)
+	cfgDepth   int
+}
+
+// reloadConfig rewrites the main configuration file with another value of an
+// unrelated key and waits (bounded) until the server serves the new value.
+func (h *c19Run) reloadConfig() {
+	h.cfgDepth = 11 - h.cfgDepth // 5 <-> 6
+	tmp := h.cfgFile + ".tmp"
+	if err := os.WriteFile(tmp, []byte(fmt.Sprintf("limit:\n  max_read_depth: %d\n", h.cfgDepth)), 0o644); err != nil {
+		h.run.count("config_reload_write_failed", 1)
+		return
+	}
+	if err := os.Rename(tmp, h.cfgFile); err != nil {
+		h.run.count("config_reload_write_failed", 1)
+		return
+	}
+	dl := time.Now().Add(3 * time.Second)
+	for h.env.Reg.Config(h.env.Ctx).MaxReadDepth() != h.cfgDepth && time.Now().Before(dl) {
+		time.Sleep(time.Millisecond)
+	}
+	if h.env.Reg.Config(h.env.Ctx).MaxReadDepth() == h.cfgDepth {
+		h.run.count("config_hot_reloads_observed", 1)
+		// the namespace manager is consulted by the config watcher right after the values changed
+		time.Sleep(2 * time.Millisecond)
+	} else {
+		h.run.count("config_hot_reload_wait_expired", 1)
+	}
 }
 
 func (h *c19Run) path(f int) string { return filepath.Join(h.dir, h.c.Files[f]) }
@@ -409,14 +456,42 @@ func (h *c19Run) apply(f int, kind, content string) error {
 	return cerr
 }
 
+// neverDetected rewrites the current content of every existing file three more
+// times and reports whether the watcher's change count still has not moved.
+func (h *c19Run) neverDetected(initial int) bool {
+	for try := 0; try < 3; try++ {
+		for f := range h.c.Files {
+			h.mu.Lock()
+			vs := h.vers[f]
+			cur := vs[len(vs)-1]
+			h.mu.Unlock()
+			if cur.Kind == "remove" {
+				continue
+			}
+			v := h.addVersion(f, "rewrite", cur.Content, false, h.clk.Add(1))
+			_ = os.WriteFile(h.path(f), []byte(cur.Content), 0o644)
+			v.TE = h.clk.Add(1)
+		}
+		dl := time.Now().Add(time.Second)
+		for h.env.Hook.changes() == initial && time.Now().Before(dl) {
+			time.Sleep(time.Millisecond)
+		}
+		if h.env.Hook.changes() != initial {
+			return false
+		}
+	}
+	return true
+}
+
 // eventsFor counts the watcher's "change detected" log lines for file f.
 func (h *c19Run) eventsFor(f int) int {
 	p := h.path(f)
 	h.env.Hook.mu.Lock()
 	defer h.env.Hook.mu.Unlock()
 	n := 0
+	rel := "./" + filepath.Join(filepath.Base(h.dir), h.c.Files[f]) // relative target: sources are relative too
 	for _, src := range h.env.Hook.changeLog {
-		if src == p {
+		if src == p || h.c.Relative && (src == rel || src == rel[2:]) {
 			n++
 		}
 	}
@@ -1020,7 +1095,24 @@ func runC19Case(run *runner, idx int64, c *c19Case, raceMode bool) string {
 	if strings.HasSuffix(c.Kind, "-file") {
 		target = "file://" + h.path(0)
 	}
-	opts := EnvOpts{}
+	if c.Relative {
+		// the spelling of keto's default (file://./keto_namespaces): relative to the
+		// working directory, which is the case's scratch root for the duration of the case
+		if old, err := os.Getwd(); err == nil && os.Chdir(root) == nil {
+			defer func() { _ = os.Chdir(old) }()
+			target = "file://./watched"
+			if strings.HasSuffix(c.Kind, "-file") {
+				target = "file://./watched/" + c.Files[0]
+			}
+			run.count("cases_with_relative_target", 1)
+		}
+	}
+	h.cfgFile, h.cfgDepth = filepath.Join(root, "keto.yaml"), 5
+	if err := os.WriteFile(h.cfgFile, []byte("limit:\n  max_read_depth: 5\n"), 0o644); err != nil {
+		run.inconclusive("write config file: " + err.Error())
+		return "inconclusive"
+	}
+	opts := EnvOpts{ConfigFile: h.cfgFile}
 	if h.opl {
 		opts.OPLLocation = target
 	} else {
@@ -1058,6 +1150,7 @@ func runC19Case(run *runner, idx int64, c *c19Case, raceMode bool) string {
 
 	verdict := "ok"
 	var lastSince int
+	initialChanges := env.Hook.changes()
 	for si, st := range c.Steps {
 		since := env.Hook.changes()
 		lastSince = since
@@ -1089,6 +1182,11 @@ func runC19Case(run *runner, idx int64, c *c19Case, raceMode bool) string {
 			}
 			time.Sleep(3 * time.Millisecond)
 		}
+		for _, k := range c.ConfigReloadAfter {
+			if k == si {
+				h.reloadConfig()
+			}
+		}
 	}
 	// bounded progress
 	seen, quiet := c19Quiet(env, lastSince, 400*time.Millisecond, 6*time.Second)
@@ -1111,6 +1209,14 @@ func runC19Case(run *runner, idx int64, c *c19Case, raceMode bool) string {
 
 	if verdict == "ok" {
 		switch {
+		case !seen && env.Hook.changes() == initialChanges && len(c.Steps) >= 3 && h.neverDetected(initialChanges):
+			// state based: not ONE change event in the whole case (all steps plus three
+			// more rewrites of the current content, each given a second): the watcher
+			// loaded the target once and does not follow it
+			verdict = "violation"
+			run.violate(violation{Index: idx, Sig: fmt.Sprintf("C19:%s:changes-never-detected", c.Kind),
+				Summary: fmt.Sprintf("%d writes to the watched target %s (plus 3 rewrites of the final content) and the watcher logged no change at all; the initial version stays in effect", len(c.Steps), map[bool]string{true: "(relative spelling file://./...)", false: "(absolute)"}[c.Relative]),
+				Case:    c, Detail: map[string]any{"steps": len(c.Steps), "relative_target": c.Relative}})
 		case !seen:
 			run.inconclusive(fmt.Sprintf("idx %d (%s/%s): the watcher never logged a change after the last step: file event not delivered", idx, c.Kind, c.Write))
 			run.count("progress_inconclusive", 1)
